@@ -44,6 +44,21 @@ theorem decodeAll_sound (bs : Bytes) (i : Item) (h : decodeAll bs = some i) : WF
     rw [hbs]; exact enc_wf i' hv
   · cases h
 
+/-- **Completeness of the strict decoder**: every well-formed byte string is accepted as a whole — so the
+decoder accepts EXACTLY the well-formed items (`decodeAll_sound` is the other direction), and
+"accepted by the Lean parser" is neither weaker nor stronger than `WF`. -/
+theorem wellformed_accepted (bs : Bytes) (h : WF bs) : ∃ i, decodeAll bs = some i := by
+  obtain ⟨i, hv, he⟩ := wf_is_encoding bs h
+  refine ⟨i, ?_⟩
+  rw [← he]
+  unfold decodeAll
+  have := dec_enc i hv (encode i).length [] (Nat.le_refl _)
+  rw [List.append_nil] at this
+  rw [this]
+
+theorem wellformed_iff_accepted (bs : Bytes) : WF bs ↔ ∃ i, decodeAll bs = some i :=
+  ⟨wellformed_accepted bs, fun ⟨i, h⟩ => decodeAll_sound bs i h⟩
+
 /-- the structure length field counts exactly the bytes of the children and every item occupies a multiple
 of 8 bytes (a consequence of the padding rule that the specification states separately) -/
 theorem encode_length_mul8 : ∀ (i : Item), (encode i).length % 8 = 0 := by
@@ -177,6 +192,53 @@ theorem tags_match_spec :
 
 /-- Result Status Success is 0 in the code as in the specification (the envelope predicate tests `st = 0`) -/
 theorem success_is_zero : Gen.enumResultStatus.lookup "SUCCESS" = some 0 := by decide +kernel
+
+/-! ### the envelope of what the engine composes -/
+
+/-- a handler's payload is a Response Payload structure -/
+def payloadOk (r : Envelope.ItemResult) : Prop :=
+  match r.outcome with
+  | .success p => Envelope.Item.tag p = Envelope.tResponsePayload
+  | .failure st _ _ => st ≠ 0
+
+theorem tag_prim (t : Nat) (v : PVal) : Envelope.Item.tag (.prim t v) = t := rfl
+theorem tag_struct (t : Nat) (ks : List Item) : Envelope.Item.tag (.struct t ks) = t := rfl
+
+theorem item_envelope (r : Envelope.ItemResult) (h : payloadOk r) :
+    Envelope.itemFaults (Envelope.buildItem r) = [] := by
+  obtain ⟨op, bid, out⟩ := r
+  cases out with
+  | success p =>
+    simp only [payloadOk] at h
+    cases op <;> cases bid <;>
+      simp [Envelope.itemFaults, Envelope.buildItem, Envelope.optItem, Envelope.find, Envelope.count,
+        Envelope.enumOf, tag_prim, h, Envelope.tBatchItem, Envelope.tResultStatus, Envelope.tResultReason,
+        Envelope.tResultMessage, Envelope.tOperation, Envelope.tUniqueBatchItemID, Envelope.tResponsePayload]
+  | failure st rs msg =>
+    simp only [payloadOk] at h
+    cases op <;> cases bid <;>
+      simp [Envelope.itemFaults, Envelope.buildItem, Envelope.optItem, Envelope.find, Envelope.count,
+        Envelope.enumOf, tag_prim, h, Envelope.tBatchItem, Envelope.tResultStatus, Envelope.tResultReason,
+        Envelope.tResultMessage, Envelope.tOperation, Envelope.tUniqueBatchItemID]
+
+/-- **Response envelope** of the composition `_process_batch` + `_build_response` (as transcribed in
+`Kmip.Envelope.buildResponse`): whatever the items' outcomes, the response carries the request's protocol
+version, a time stamp, a batch count equal to the number of items, and every item has a result status, with
+reason and message exactly when it is not Success. -/
+theorem response_envelope (ver : Int × Int) (now : Int) (items : List Envelope.ItemResult)
+    (h : ∀ r ∈ items, payloadOk r) :
+    Envelope.faults (some ver) (Envelope.buildResponse ver now items) = [] := by
+  simp [Envelope.faults, Envelope.buildResponse, Envelope.find, Envelope.kidsOf, Envelope.intOf, tag_prim, tag_struct,
+    Envelope.tResponseMessage, Envelope.tResponseHeader, Envelope.tProtocolVersion,
+    Envelope.tProtocolVersionMajor, Envelope.tProtocolVersionMinor, Envelope.tTimeStamp, Envelope.tBatchCount]
+  intro a ha
+  exact item_envelope a (h a ha)
+
+/-- the error responses of the session (parse failure, authentication failure, oversize replacement,
+unsupported version) are built by `build_error_response` -/
+theorem error_response_envelope (ver : Int × Int) (now : Int) (reason : Nat) (msg : Bytes) :
+    Envelope.faults (some ver) (Envelope.buildErrorResponse ver now reason msg) = [] :=
+  response_envelope ver now _ (by intro r hr; simp at hr; subst hr; simp [payloadOk])
 
 /-! ### non-vacuity -/
 
